@@ -153,6 +153,37 @@ def concurrent_case(write_at_ms: int, ack_delay_ms: int, data: str, alive: bool,
             "auto": False, "fed": fed_names, "hang": hang, "cut": []}
 
 
+def backlog_case(nframes: int) -> dict[str, Any]:
+    """The client is idle while the gateway sends a burst of data frames for us, then an alive check (H3), then
+    every frame must still be readable in order (H1/H5)."""
+    rec = Recorder()
+    fed_names: list[str] = []
+
+    async def main() -> None:
+        gw = Gateway(rec)
+        tr = await connect(rec, gw, uri(None))
+        for _ in range(nframes):
+            fed_names.append("DataUs")
+            gw.feed_named("DataUs")
+        await settle()
+        fed_names.append("Alive")
+        gw.feed_named("Alive")
+        await asyncio.sleep(1.0)
+        for _ in range(nframes):
+            if await do_op(rec, tr, "read", 1.0, b"") != "ok":
+                break
+        await drain_and_finish(rec, tr)
+
+    hang = False
+    try:
+        vloop.run(main(), horizon=6000)
+    except (TimeoutError, vloop.BlockedForever):
+        hang = True
+        rec.ev.append({"e": "Final", "t": rec.ev[-1]["t"] if rec.ev else 0, "drained": False})
+    return {"cfg": cfg(1000), "ev": rec.ev, "prog": f"backlog-while-idle/{nframes}", "auto": False, "fed": fed_names,
+            "hang": hang, "cut": []}
+
+
 MODEL_FRAME = {"ack": "Ack", "ackOther": "AckWrongData", "data": "DataUs", "dataOther": "DataOther", "alive": "Alive",
                "err": "Err40", "short": "ShortAck"}
 SCRIPTS = {"wrr": ["write", "read", "read"], "rwr": ["read", "write", "read"], "wwr": ["write", "write", "read"]}
@@ -314,6 +345,8 @@ def run(tier: str, seed: int) -> Report:
             for data in ("none", "before", "after"):
                 for alive in (False, True):
                     add(concurrent_case(write_at, ack_delay, data, alive), "concurrent-read-write")
+    for n in ((10, 300) if tier == "quick" else (10, 300, 3000)):
+        add(backlog_case(n), "backlog-while-idle")
     # spec -> code
     nsim = 120 if tier == "quick" else 1500
     ndrift = nrep = 0
